@@ -39,3 +39,42 @@ c04_zeta!(c04_zeta_f64, f64);
 //@ bounds: every f32 bit pattern
 //@ assumes: libm::powf by contract
 c04_zeta!(c04_zeta_f32, f32);
+
+// ------------------------------------------------------------------------------------------
+// C03: Zeta returns an integer >= 1 or the documented +inf
+// ------------------------------------------------------------------------------------------
+macro_rules! c03_zeta {
+    ($name:ident, $f:ty) => {
+        vproof! {
+            #[kani::unwind(3)]
+            fn $name() {
+                let s: $f = kani::any();
+                let d = match Zeta::<$f>::new(s) { Ok(d) => d, Err(_) => return };
+                kani::assume(s <= 1001.0);
+                let mut rng = SymRng::new(2);
+                let x: $f = d.sample(&mut rng);
+                vassert!(x == x, "Zeta sample is NaN");
+                vassert!(x >= 1.0, "Zeta sample below 1");
+                vassert!(x.is_infinite() || x == x.floor(), "Zeta sample is not an integer");
+                kani::cover!(x == 1.0, "x = 1");
+                kani::cover!(x.is_infinite(), "documented infinite result");
+            }
+        }
+    };
+}
+//@ id: c03_zeta_f64
+//@ prop: C03
+//@ tier: quick
+//@ cap: 900
+//@ funcs: Zeta::<f64>::new; Zeta::<f64>::sample
+//@ bounds: s in (1, 1001]; first trial (<= 2 words)
+//@ assumes: libm::pow by contract
+c03_zeta!(c03_zeta_f64, f64);
+//@ id: c03_zeta_f32
+//@ prop: C03
+//@ tier: quick
+//@ cap: 900
+//@ funcs: Zeta::<f32>::new; Zeta::<f32>::sample
+//@ bounds: s in (1, 1001]; first trial (<= 2 words), all 2^24 uniform values
+//@ assumes: libm::powf by contract
+c03_zeta!(c03_zeta_f32, f32);
